@@ -83,7 +83,7 @@ func GenPred(t *rapid.T, depth int, label string) *Pred {
 	case 0, 1:
 		op := rapid.SampledFrom([]string{"=", "<>", "<", "<=", ">", ">="}).Draw(t, label+".op")
 		v := DimVal(t, dim, label+".lit")
-		return &Pred{Op: op, Dim: dim, Lit: &v}
+		return &Pred{Op: op, Dim: dim, Lit: &v, Rev: rapid.IntRange(0, 3).Draw(t, label+".rev") == 0}
 	case 2:
 		if dim == "db" {
 			dim = "da"
